@@ -113,8 +113,8 @@ def mk_tmgr(uid='tmgr.0000'):
     return tm
 
 
-def add_task(tm, uid, state, pilot=None):
-    t = mk_task(tm, uid, state, pilot)
+def add_task(tm, uid, state, pilot=None, mode='task.executable'):
+    t = mk_task(tm, uid, state, pilot, mode=mode)
     tm._tasks[uid]     = t
     tm._task_info[uid] = {'uid': uid, 'state': state}
     return t
